@@ -1112,6 +1112,10 @@ func init() {
 		c.impl.Flush()
 		c.direct.Flush()
 
+		// readers (and writers) parked inside user callbacks: domain / role matching function, link
+		// condition function, custom matcher function (c13_cb.go); answers compared with a quiescent twin
+		c13RunCallbacks(c)
+
 		specs := []*c13Spec{c13MakeSpec(false, false), c13MakeSpec(true, false)}
 		for i := 0; i < nRandom; i++ {
 			h := c13Gen(c, i, specs)
@@ -1133,6 +1137,7 @@ func init() {
 
 		c13ProbeF19(c)
 		c13ProbeF20(c)
+		c13CbProbeF20(c)
 
 		c13TableNotes(c)
 		c.Notes = append(c.Notes,
